@@ -1,2 +1,107 @@
-(* props/C13.v — placeholder while the proofs are being written. *)
-Require Import Aiuti.FLock.
+(* props/C13.v — C13: a crashed holder never leaves the FileLock stuck.
+   ONLY theorem statements about the executable model FLock.v, each closed by a
+   lemma of FLockCrash.v (invariants: FLockInv.v, FLockTL.v, FLockFD.v, FLockMutex.v).
+
+   What is assumed and what is proved.  [ECrash p] / [crash s p] is the KERNEL
+   ASSUMPTION: when process p dies every open file description of p is closed, and a
+   closed description no longer carries a flock (validated on the real OS by the
+   SIGKILL crash-point enumeration of the correspondence check, never proved).
+   Proved, for every reachable state — i.e. whatever point of acquire()/release(),
+   blocking, timed, polling, reentrant-nested, mid-release, the threads of p and of
+   everybody else have reached, under any OSError script: the FileLock code keeps no
+   ownership information anywhere else, so the lock is free or held by a live
+   survivor, survivors keep excluding each other, a newcomer gets it at once. *)
+From Coq Require Import List Arith NArith Bool.
+Import ListNotations.
+Require Import Aiuti.FLock Aiuti.FLockInv Aiuti.FLockTL Aiuti.FLockFD Aiuti.FLockMutex Aiuti.FLockExec Aiuti.FLockCrash.
+
+(* After the crash of p, at ANY point of ANY run: (1) no descriptor of p is open any
+   more; (2) if the lock was held through a descriptor of p it is now free; (3) if it
+   is still held, then by the same descriptor as before, which is open and belongs to
+   a live process other than p. *)
+Theorem crash_releases :
+  forall ocfg tcfg fl evs p,
+    let s := run (init_cfg ocfg tcfg fl) evs in
+    let s' := crash s p in
+    viol s = false ->
+    (forall d, fdown s' d <> Some p) /\
+    (forall d, holder s = Some d -> fdown s d = Some p -> holder s' = None) /\
+    (forall d, holder s' = Some d ->
+       holder s = Some d /\ exists q, fdown s' d = Some q /\ q <> p /\ dead s' q = false).
+Proof. exact crash_releases_lemma. Qed.
+Print Assumptions crash_releases.
+
+(* Mutual exclusion among the survivors continues to hold: the C02 theorem for event
+   lists that contain a crash anywhere (inside_b counts live threads only). *)
+Theorem mutex_after_crash :
+  forall ocfg tcfg fl evs1 p evs2 t1 t2,
+    let s := run (init_cfg ocfg tcfg fl) (evs1 ++ ECrash p :: evs2) in
+    viol s = false -> inside_b s t1 = true -> inside_b s t2 = true -> t1 = t2.
+Proof. exact mutex_after_crash_lemma. Qed.
+Print Assumptions mutex_after_crash.
+
+(* Not stuck: after the crash, if no survivor holds the lock or is in the middle of
+   giving it up (no live object records a descriptor, no live thread has a descriptor
+   in flight), then an idle contender of a live process obtains the lock with its
+   first attempt — for every flavour of acquire (m, blk, tm), in 4 primitive steps,
+   without waiting.  No clean-up of the lock file by anyone is involved. *)
+Theorem acquirable_after_crash :
+  forall ocfg tcfg fl evs p tF oF m blk tm poll skip fuel,
+    let s := run (init_cfg ocfg tcfg fl) evs in
+    let s' := crash s p in
+    viol s = false ->
+    (forall o, dead s' (o_proc (objs s' o)) = false -> o_fd (objs s' o) = None) ->
+    (forall t, dead s' (t_proc (thr s' t)) = false -> pc_fd (t_pc (thr s' t)) = None) ->
+    dead s' (t_proc (thr s' tF)) = false -> t_pc (thr s' tF) = PIdle ->
+    o_proc (objs s' oF) = t_proc (thr s' tF) -> o_own (objs s' oF) = None ->
+    faulty s' KOpen = false -> faulty s' KLock = false ->
+    4 <= fuel ->
+    snd (do_call fuel s' tF (CAcq oF m blk tm poll skip)) = RTrue.
+Proof. exact acquirable_after_crash_lemma. Qed.
+Print Assumptions acquirable_after_crash.
+
+(* No soft state: the content of the lock file (the only thing a crashed process
+   could leave behind on disk) never influences any step — two runs that differ only
+   in the file's content stay equal in every other component. *)
+Theorem no_soft_state :
+  forall evs s c,
+    let s1 := run (set_file s c) evs in
+    let s2 := run s evs in
+    objs s1 = objs s2 /\ thr s1 = thr s2 /\ holder s1 = holder s2 /\ fdown s1 = fdown s2 /\
+    dead s1 = dead s2 /\ now s1 = now s2 /\ viol s1 = viol s2 /\
+    (forall t, inside_b s1 t = inside_b s2 t) /\ (forall o, is_locked s1 o = is_locked s2 o).
+Proof. exact no_soft_state_obs_lemma. Qed.
+Print Assumptions no_soft_state.
+
+(* Non-vacuity.  Process 1 (thread 0, object 0) holds the lock; process 2 (thread 1,
+   object 1) is idle.  Crash of process 1: the holder was a descriptor of process 1 and
+   is released; all hypotheses of acquirable_after_crash hold; the newcomer gets True. *)
+Definition acq (o : oid) : call := CAcq o MPlain true TNone 2%N 1.
+Definition ex_pre := run (init_cfg [(1, false, TNeg); (2, false, TNeg)] [(1, [acq 0; CRel 0 false]); (2, [])] [])
+                         [EStep 0; EStep 0; EStep 0; EStep 0].
+Example crash_example_held_then_free :
+  viol ex_pre = false /\ inside_b ex_pre 0 = true /\ holder ex_pre = Some 0 /\ fdown ex_pre 0 = Some 1 /\
+  holder (crash ex_pre 1) = None /\ inside_b (crash ex_pre 1) 0 = false.
+Proof. vm_compute. repeat split. Qed.
+Example acquirable_example_hyps :
+  let s' := crash ex_pre 1 in
+  (forall o, dead s' (o_proc (objs s' o)) = false -> o_fd (objs s' o) = None) /\
+  (forall t, dead s' (t_proc (thr s' t)) = false -> pc_fd (t_pc (thr s' t)) = None) /\
+  dead s' (t_proc (thr s' 1)) = false /\ t_pc (thr s' 1) = PIdle /\
+  o_proc (objs s' 1) = t_proc (thr s' 1) /\ o_own (objs s' 1) = None /\
+  faulty s' KOpen = false /\ faulty s' KLock = false /\
+  snd (do_call 4 s' 1 (CAcq 1 MPlain false TNone 2%N 0)) = RTrue.
+Proof.
+  cbv zeta. split; [|split].
+  - intros [|[|o]]; vm_compute; auto; discriminate.
+  - intros [|[|t]]; vm_compute; auto.
+  - vm_compute. repeat split.
+Qed.
+(* a victim killed in the middle of release (after unlock, before close) with a survivor waiting *)
+Example crash_example_mid_release :
+  let s := run (init_cfg [(1, true, TNeg); (2, false, TNeg)]
+                  [(1, [acq 0; acq 0; CRel 0 true]); (2, [acq 1])] [])
+               [EStep 0; EStep 0; EStep 0; EStep 0; EStep 0; EStep 0; EStep 1; EStep 1; EStep 1; EStep 0; EStep 0] in
+  viol s = false /\ opcode s 0 = 5 /\ opcode s 1 = 4 /\ enabled s 1 = true /\
+  inside_b (run (crash s 1) [EStep 1]) 1 = true.
+Proof. vm_compute. repeat split. Qed.
